@@ -25,7 +25,12 @@ Lemmas/StreamChunk: `ustep` with the ring buffer erased, every `ustep` step IS a
   quality 2), and stage `boundary` of `bvh stream c05` on the real code (requests as predicted in
   64/64 cases, bytes differ in 6/64 with the generated data).
 
-Theorem `process_chunking_irrelevant`: PROCESS c1 followed by a request (op2, c2), each driven to
+Theorem `chunking_irrelevant`: ANY two ways of cutting the same data into PROCESS chunks in front of
+the same kind of final request (its own chunk empty in neither, or a PROCESS), all requests driven
+under arbitrary output schedules: equal states up to the ring buffer, equal bytes.  The tree violates
+the chunking clause of C05 exactly where the proviso bites (known finding
+`stream:c05:in-chunking:block-multiple`).  Its one-step form —
+theorem `process_chunking_irrelevant`: PROCESS c1 followed by a request (op2, c2), each driven to
 completion under ANY output schedule, and the single request (op2, c1 ++ c2) driven under any
 schedule, from abstractly equal starts, end with equal core states modulo the ring buffer
 (`er (core _)`) and equal bytes produced — PROVIDED op2 is PROCESS or c2 is not empty (`hsafe`).
@@ -136,6 +141,153 @@ theorem process_chunking_irrelevant {o : Oracle} {f1 f2 f3 op2 : Nat} {sched1 sc
   rw [erA_absR, erA_absR] at this
   simp only [Abs.mk.injEq] at this
   exact ⟨this.1, this.2.1⟩
+
+/-! ### whole chunk lists -/
+
+/-- a request list run on the ring-free machine: every request to its end, all of its input consumed;
+a PROCESS request does not complete a flush -/
+inductive VRun (o : Oracle) : List (Nat × Bytes) → St → Bytes → St → Bytes → Prop
+  | nil (s : St) (out : Bytes) : VRun o [] s out s out
+  | cons {op : Nat} {chunk : Bytes} {rest : List (Nat × Bytes)} {s s' : St} {out out' : Bytes} {e : Abs} {d : Bool} :
+      VEnd o op ⟨s, out, chunk, chunk.length⟩ e d → (d = true ∨ vstep o op e = none) → e.input = [] →
+      (op = 0 → d = false) → VRun o rest e.s e.out s' out' → VRun o ((op, chunk) :: rest) s out s' out'
+
+/-- the ring-free machine is deterministic on request lists -/
+theorem vrun_det {o : Oracle} (reqs : List (Nat × Bytes)) :
+    ∀ {s s1 s2 : St} {out out1 out2 : Bytes}, VRun o reqs s out s1 out1 → VRun o reqs s out s2 out2 → s1 = s2 ∧ out1 = out2 := by
+  induction reqs with
+  | nil => intro s s1 s2 out out1 out2 h1 h2; cases h1; cases h2; exact ⟨rfl, rfl⟩
+  | cons r rest ih =>
+    intro s s1 s2 out out1 out2 h1 h2
+    cases h1 with
+    | cons v1 f1 _ _ r1 =>
+      cases h2 with
+      | cons v2 f2 _ _ r2 =>
+        have := vend_final_eq v1 v2 f1 f2
+        subst this
+        exact ih r1 r2
+
+/-- a PROCESS request at the head of a list merges into the request behind it -/
+theorem vrun_merge {o : Oracle} {op2 : Nat} {c1 c2 : Bytes} {rest : List (Nat × Bytes)} {s s' : St} {out out' : Bytes}
+    (hsafe : op2 = 0 ∨ c2 ≠ []) (hS : VStart s (c1 ++ c2))
+    (h : VRun o ((0, c1) :: (op2, c2) :: rest) s out s' out') : VRun o ((op2, c1 ++ c2) :: rest) s out s' out' := by
+  cases h with
+  | @cons _ _ _ _ _ _ _ e1 d1 v1 f1 i1 hd1 r1 =>
+    have hd : d1 = false := hd1 rfl
+    subst hd
+    obtain ⟨n1, p1⟩ := v1
+    have t1 : vstep o 0 e1 = none := by rcases f1 with h | h; cases h; exact h
+    cases r1 with
+    | @cons _ _ _ _ _ _ _ e2 d2 v2 f2 i2 hd2 r2 =>
+      have hm := vmerge (o := o) (op2 := op2) (c2 := c2) hsafe n1 s out c1 e1 p1 t1 i1 hS
+      exact .cons (vmerge_end hm v2 f2) f2 i2 hd2 r2
+
+def procs (cs : List Bytes) : List (Nat × Bytes) := cs.map (fun c => (0, c))
+
+theorem vstart_mono {s : St} {a b : Bytes} (h : VStart s (a ++ b)) : VStart s a := by
+  have hw := h.good.nowrap
+  simp only [List.length_append] at hw
+  exact ⟨⟨h.good.init, h.good.nf, h.good.ncat, h.good.hint, h.good.bs, by show s.inputPos + a.length < two64; omega, rfl⟩, h.proc⟩
+
+/-- **any number of PROCESS chunks in front of a request merge into it** -/
+theorem vrun_merge_all {o : Oracle} {op : Nat} {c : Bytes} (hsafe : op = 0 ∨ c ≠ []) :
+    ∀ (cs : List Bytes) (c1 : Bytes) {s s' : St} {out out' : Bytes}, VStart s (c1 ++ cs.flatten ++ c) →
+      VRun o ((0, c1) :: (procs cs ++ [(op, c)])) s out s' out' → VRun o [(op, c1 ++ cs.flatten ++ c)] s out s' out' := by
+  intro cs
+  induction cs with
+  | nil =>
+    intro c1 s s' out out' hS h
+    simp only [procs, List.map_nil, List.nil_append, List.flatten_nil, List.append_nil] at h hS ⊢
+    exact vrun_merge hsafe hS h
+  | cons c2 cs ih =>
+    intro c1 s s' out out' hS h
+    have hS' : VStart s ((c1 ++ c2) ++ cs.flatten ++ c) := by
+      simpa [List.flatten_cons, List.append_assoc] using hS
+    have hS2 : VStart s (c1 ++ c2) := vstart_mono (vstart_mono hS')
+    have h' : VRun o ((0, c1 ++ c2) :: (procs cs ++ [(op, c)])) s out s' out' :=
+      vrun_merge (Or.inl rfl) hS2 (by simpa [procs] using h)
+    have := ih (c1 ++ c2) hS' h'
+    simpa [List.flatten_cons, List.append_assoc] using this
+
+/-- **input chunking is irrelevant on the ring-free machine**: two ways of cutting the same data into
+PROCESS chunks in front of the same kind of final request (PROCESS, FLUSH or FINISH), the final
+request being empty in neither or a PROCESS, end in the same state with the same bytes -/
+theorem vrun_chunking {o : Oracle} {op : Nat} {c c' : Bytes} {cs cs' : List Bytes} {s s1 s2 : St} {out out1 out2 : Bytes}
+    (hsafe : op = 0 ∨ c ≠ []) (hsafe' : op = 0 ∨ c' ≠ []) (hdata : cs.flatten ++ c = cs'.flatten ++ c')
+    (hS : VStart s (cs.flatten ++ c))
+    (h1 : VRun o (procs cs ++ [(op, c)]) s out s1 out1) (h2 : VRun o (procs cs' ++ [(op, c')]) s out s2 out2) :
+    s1 = s2 ∧ out1 = out2 := by
+  have key : ∀ (ds : List Bytes) (d : Bytes), (op = 0 ∨ d ≠ []) → VStart s (ds.flatten ++ d) → ∀ {t : St} {ot : Bytes},
+      VRun o (procs ds ++ [(op, d)]) s out t ot → VRun o [(op, ds.flatten ++ d)] s out t ot := by
+    intro ds d hs hSd t ot h
+    cases ds with
+    | nil => simpa [procs] using h
+    | cons d1 ds =>
+      have := vrun_merge_all (o := o) hs ds d1 (by simpa [List.flatten_cons, List.append_assoc] using hSd) (by simpa [procs] using h)
+      simpa [List.flatten_cons, List.append_assoc] using this
+  have r1 := key cs c hsafe hS h1
+  have r2 := key cs' c' hsafe' (hdata ▸ hS) h2
+  rw [hdata] at r1
+  exact vrun_det _ r1 r2
+
+/-- a request list driven on the model, each request to completion under its own output schedule with
+all of its input consumed (the contract kept between requests: `Bnd`) -/
+inductive DrivenC (o : Oracle) : List (Nat × Bytes) → St → Bytes → St → Bytes → Prop
+  | nil (s : St) (del : Bytes) : DrivenC o [] s del s del
+  | cons {op fuel : Nat} {chunk : Bytes} {sched : List SchedStep} {rest : List (Nat × Bytes)}
+      {s s1 s' : St} {del del1 del' : Bytes} {d1 : Bool} :
+      op ≤ 2 → Bnd op s chunk →
+      driveReq o fuel op sched s chunk del false = some (s1, [], del1, d1) →
+      (d1 = true ∨ ustep o op (absR s1 [] del1) = none) → (op = 0 → d1 = false) →
+      DrivenC o rest s1 del1 s' del' → DrivenC o ((op, chunk) :: rest) s del s' del'
+
+/-- **every driven request list is a run of the ring-free machine** -/
+theorem drivenC_vrun {o : Oracle} (reqs : List (Nat × Bytes)) :
+    ∀ {s s' : St} {del del' : Bytes}, DrivenC o reqs s del s' del' → VGood (absR s [] del) →
+      VRun o reqs (er (core s)) (del ++ s.pending) (er (core s')) (del' ++ s'.pending) := by
+  induction reqs with
+  | nil => intro s s' del del' h _; cases h; exact .nil _ _
+  | cons r rest ih =>
+    intro s s' del del' h hG
+    cases h with
+    | @cons op _ chunk _ _ _ s1 _ _ del1 _ d1 hop hB hd hf h0 hr =>
+      have hGc : VGood (absR s chunk del) := ⟨hG.init, hG.nf, hG.ncat, hG.hint, hG.bs, hB.wrap, rfl⟩
+      obtain ⟨r1, _⟩ := BV.Props.C05.schedule_refines_abstract hop hB hd
+      obtain ⟨v1, g1⟩ := rpath_er r1 hGc
+      have fin : d1 = true ∨ vstep o op (erA (absR s1 [] del1)) = none := by
+        rcases hf with h | h
+        · exact Or.inl h
+        · exact Or.inr (final_er g1 rfl h)
+      exact .cons (e := erA (absR s1 [] del1)) v1 fin rfl h0 (ih hr g1)
+
+/-- **chunking_irrelevant** (model, any output schedules): two ways of cutting the same data into
+PROCESS chunks in front of the same kind of final request — PROCESS, FLUSH or FINISH, its own chunk
+empty in neither history (or the request a PROCESS) —, every request driven to completion under its
+own output-capacity / `take_output` schedule, from abstractly equal starts in PROCESSING (main loop,
+not catable, size hint set, no 64-bit wrap): equal core states up to the ring buffer — positions,
+carry, stream state, the number of payload-encoder invocations — and equal bytes produced. -/
+theorem chunking_irrelevant {o : Oracle} {op : Nat} {c c' : Bytes} {cs cs' : List Bytes}
+    {s t s' t' : St} {del delt del' delt' : Bytes}
+    (hsafe : op = 0 ∨ c ≠ []) (hsafe' : op = 0 ∨ c' ≠ []) (hdata : cs.flatten ++ c = cs'.flatten ++ c')
+    (hG : VGood (absR s (cs.flatten ++ c) del)) (hproc : s.streamState = .processing)
+    (hcore : core t = core s) (hout : delt ++ t.pending = del ++ s.pending)
+    (h1 : DrivenC o (procs cs ++ [(op, c)]) s del s' del')
+    (h2 : DrivenC o (procs cs' ++ [(op, c')]) t delt t' delt') :
+    er (core s') = er (core t') ∧ del' ++ s'.pending = delt' ++ t'.pending := by
+  have hG0 : VGood (absR s [] del) := ⟨hG.init, hG.nf, hG.ncat, hG.hint, hG.bs, by have hw : s.inputPos + (cs.flatten ++ c).length < two64 := hG.nowrap; show s.inputPos + 0 < two64; omega, rfl⟩
+  have hc := core_eq_iff.mp hcore
+  have hGt : VGood (absR t [] delt) :=
+    ⟨hc.2.2.2.2.2.2.2.2.2.1.trans hG.init, by rw [show (absR t [] delt).s.params = t.params from rfl, hc.1]; exact hG.nf,
+      by rw [show (absR t [] delt).s.params = t.params from rfl, hc.1]; exact hG.ncat,
+      by rw [show (absR t [] delt).s.params = t.params from rfl, hc.1]; exact hG.hint,
+      by rw [show (absR t [] delt).s.blockSize = t.blockSize from rfl, blockSize_of_params hc.1]; exact hG.bs,
+      by have hw : s.inputPos + (cs.flatten ++ c).length < two64 := hG.nowrap; show t.inputPos + 0 < two64; rw [hc.2.1]; omega, rfl⟩
+  have v1 := drivenC_vrun _ h1 hG0
+  have v2 := drivenC_vrun _ h2 hGt
+  rw [hcore, hout] at v2
+  have hS : VStart (er (core s)) (cs.flatten ++ c) :=
+    ⟨⟨hG.init, hG.nf, hG.ncat, hG.hint, hG.bs, hG.nowrap, rfl⟩, hproc⟩
+  exact vrun_chunking hsafe hsafe' hdata hS v1 v2
 
 /-! ### the counter-example at a block boundary (model, fresh encoder, quality 2, size hint set) -/
 
